@@ -197,6 +197,7 @@ def P_of : Clause → Scenario → Obs → Prop
   | .ticksGrid _ _ _ => P_pings_on_schedule
   | .ticksPending _ _ _ => P_pings_on_schedule
   | .f30 _ _ _ => P_no_ping_after_cancel
+  | .f31 _ _ _ => fun sc o => P_no_ping_after_end sc o ∧ P_closes_only_if sc o
   | .deadlineAll _ _ => P_fresh_deadline
   | .deadlineShort _ _ _ _ => P_fresh_deadline
   | .deadlineLong _ _ _ _ => P_fresh_deadline
@@ -221,11 +222,14 @@ def f30Of (sc : Scenario) (o : Obs) : Option Clause :=
 def deadlineOf (sc : Scenario) (o : Obs) : Option Clause :=
   if sc.real ∨ o.pings.isEmpty then none else deadlineClause sc.I o.pings o.to
 def quietOf (o : Obs) : Option Clause := if o.exit ∧ o.quietAfter then none else some .notQuiet
+def f31Of (sc : Scenario) (o : Obs) : Option Clause :=
+  f31Shape sc.transientMnf sc.os (specCloseTick sc.T sc.os) sc.endTick o.pings o.closes
 def whyOf (sc : Scenario) (wblk : Option Nat) : Why :=
   (dueOf sc.tc sc.sched sc.os (specCloseTick sc.T sc.os) sc.endTick wblk).2
 
 theorem monitor_eq (sc : Scenario) (o : Obs) :
     monitor sc o =
+      (f31Of sc o <|>
       if sc.sess then
         match o.sess with
         | none => f30Of sc o <|> deadlineOf sc o <|> longClause sc.I sc.scripts <|> closingOf sc o <|> ticksOf sc o <|>
@@ -234,8 +238,8 @@ theorem monitor_eq (sc : Scenario) (o : Obs) :
           f30Of sc o <|> deadlineOf sc o <|> longClause sc.I sc.scripts <|>
             afterCloseClause sc.I sc.tc sc.sched o.pings <|> closingOf sc o <|> ticksOf sc o <|>
             sessClause sc so o.closes (sc.due so.wblk) (whyOf sc so.wblk) <|> quietOf o
-      else f30Of sc o <|> closingOf sc o <|> deadlineOf sc o <|> ticksOf sc o <|> quietOf o := by
-  simp only [monitor, f30Of, deadlineOf, closingOf, ticksOf, quietOf, Scenario.sched, Scenario.os, Scenario.T,
+      else f30Of sc o <|> closingOf sc o <|> deadlineOf sc o <|> ticksOf sc o <|> quietOf o) := by
+  simp only [monitor, f31Of, f30Of, deadlineOf, closingOf, ticksOf, quietOf, Scenario.sched, Scenario.os, Scenario.T,
     Scenario.endTick, Scenario.due, whyOf]
   cases sc.sess <;> cases o.sess <;> rfl
 
@@ -249,12 +253,15 @@ theorem orElse_none {α : Type} {a b : Option α} (h : (a <|> b) = none) : a = n
 
 /-- A report of the monitor comes from one of its parts. -/
 theorem monitor_some {sc : Scenario} {o : Obs} {cl : Clause} (h : monitor sc o = some cl) :
-    f30Of sc o = some cl ∨ deadlineOf sc o = some cl ∨ closingOf sc o = some cl ∨ ticksOf sc o = some cl ∨
+    f31Of sc o = some cl ∨ f30Of sc o = some cl ∨ deadlineOf sc o = some cl ∨ closingOf sc o = some cl ∨ ticksOf sc o = some cl ∨
     quietOf o = some cl ∨
     (sc.sess = true ∧ (longClause sc.I sc.scripts = some cl ∨ (o.sess = none ∧ cl = .badSess) ∨
       ∃ so, o.sess = some so ∧ (afterCloseClause sc.I sc.tc sc.sched o.pings = some cl ∨
         sessClause sc so o.closes (sc.due so.wblk) (whyOf sc so.wblk) = some cl))) := by
   rw [monitor_eq] at h
+  rcases orElse_some h with h | h
+  · exact .inl h
+  right
   split at h
   · rename_i hs
     split at h
@@ -284,11 +291,13 @@ theorem monitor_some {sc : Scenario} {o : Obs} {cl : Clause} (h : monitor sc o =
 
 /-- A silent monitor: every part that applies is silent. -/
 theorem monitor_none {sc : Scenario} {o : Obs} (h : monitor sc o = none) :
-    f30Of sc o = none ∧ deadlineOf sc o = none ∧ closingOf sc o = none ∧ ticksOf sc o = none ∧ quietOf o = none ∧
+    f31Of sc o = none ∧ f30Of sc o = none ∧ deadlineOf sc o = none ∧ closingOf sc o = none ∧ ticksOf sc o = none ∧ quietOf o = none ∧
     (sc.sess = true → longClause sc.I sc.scripts = none ∧
       ∃ so, o.sess = some so ∧ afterCloseClause sc.I sc.tc sc.sched o.pings = none ∧
         sessClause sc so o.closes (sc.due so.wblk) (whyOf sc so.wblk) = none) := by
   rw [monitor_eq] at h
+  obtain ⟨h31, h⟩ := orElse_none h
+  refine ⟨h31, ?_⟩
   split at h
   · rename_i hs
     split at h
@@ -503,6 +512,21 @@ theorem f30Shape_some {I tc : Nat} {sched : List SpecPing} {pings : List Nat} {c
       cases h
       exact ⟨l.stop, by simpa using hc.2.2, hc.1, _, _, _, rfl⟩
     · rw [if_neg hc] at h; cases h
+
+theorem f31_refutes {sc : Scenario} {o : Obs} {cl : Clause} (h : f31Of sc o = some cl) : ¬ P_of cl sc o := by
+  simp only [f31Of, f31Shape] at h
+  by_cases hc : (specCloseTick sc.T sc.os).isNone = true ∧ (sc.os.any (· == 1)) = true ∧
+      sc.transientMnf.contains sc.endTick = true ∧ (o.pings.length > sc.endTick ∨ o.closes ≠ [])
+  · rw [if_pos hc] at h
+    cases h
+    rintro ⟨p1, p2⟩
+    rcases hc.2.2.2 with h4 | h4
+    · have : o.pings.length ≤ sc.endTick := p1
+      omega
+    · obtain ⟨k, hk⟩ := p2 h4
+      have := (specCloseTick_spec _ _ _).2 hk
+      rw [this] at hc; simp at hc
+  · rw [if_neg hc] at h; cases h
 
 theorem f30_refutes {sc : Scenario} {o : Obs} {cl : Clause} (h : f30Of sc o = some cl) : ¬ P_of cl sc o := by
   simp only [f30Of] at h
@@ -792,7 +816,8 @@ theorem sess_refutes {sc : Scenario} {o : Obs} {so : SessObs} {cl : Clause} (hs 
 /-- **monitor_sound.** Whatever clause the monitor reports, the corresponding clause of the property
 fails on the record. -/
 theorem monitor_sound (sc : Scenario) (o : Obs) (cl : Clause) (h : monitor sc o = some cl) : ¬ P_of cl sc o := by
-  rcases monitor_some h with h | h | h | h | h | ⟨hs, h | ⟨hn, rfl⟩ | ⟨so, hso, h | h⟩⟩
+  rcases monitor_some h with h | h | h | h | h | h | ⟨hs, h | ⟨hn, rfl⟩ | ⟨so, hso, h | h⟩⟩
+  · exact f31_refutes h
   · exact f30_refutes h
   · exact deadline_refutes h
   · exact closing_refutes h
@@ -904,7 +929,7 @@ theorem sess_complete {sc : Scenario} {o : Obs} {so : SessObs} (hso : o.sess = s
 
 /-- **monitor_complete.** If the monitor is silent on a record, every clause of the property holds on it. -/
 theorem monitor_complete (sc : Scenario) (o : Obs) (h : monitor sc o = none) (cl : Clause) : P_of cl sc o := by
-  obtain ⟨_, hdl, hcl, htk, hq, hsess⟩ := monitor_none h
+  obtain ⟨_, _, hdl, hcl, htk, hq, hsess⟩ := monitor_none h
   obtain ⟨c1, c2, c3, c4, c5⟩ := closing_complete hcl
   obtain ⟨t1, t2⟩ := ticks_complete htk
   have hd := deadline_complete hdl
@@ -927,6 +952,7 @@ theorem monitor_complete (sc : Scenario) (o : Obs) (h : monitor sc o = none) (cl
     · exact ⟨fun e => absurd e hs, fun e => absurd e hs, fun e => absurd e hs, fun e => absurd e hs,
         fun e => absurd e hs⟩
   obtain ⟨s1, s2, s3, s4, s5⟩ := hs5
+  have h31 : P_no_ping_after_end sc o ∧ P_closes_only_if sc o := ⟨t2, c2⟩
   cases cl <;> assumption
 
 /-- The predicates are satisfiable: the model's observation of every scripted-loop or real-session
@@ -981,6 +1007,10 @@ theorem sound_ticksPending (sc : Scenario) (o : Obs) {ps w I} (h : monitor sc o 
   monitor_sound sc o _ h
 
 theorem sound_f30 (sc : Scenario) (o : Obs) {a b c} (h : monitor sc o = some (.f30 a b c)) : ¬ P_no_ping_after_cancel sc o :=
+  monitor_sound sc o _ h
+
+theorem sound_f31 (sc : Scenario) (o : Obs) {m ps cs} (h : monitor sc o = some (.f31 m ps cs)) :
+    ¬ (P_no_ping_after_end sc o ∧ P_closes_only_if sc o) :=
   monitor_sound sc o _ h
 
 theorem sound_deadlineAll (sc : Scenario) (o : Obs) {v I} (h : monitor sc o = some (.deadlineAll v I)) : ¬ P_fresh_deadline sc o :=
@@ -1040,6 +1070,8 @@ example : monitor (scn 2 [a 10, n, a 5] 3750) (ob [1000, 2000, 3000] [3005]) =
 example : monitor (scn 3 [a 10, n, n] 3750) (ob [1000, 2000, 3000] [3500]) = some (.closedFewFails 3500 2 3) := by decide
 example : monitor (scn 2 [a 10, n, n] 3750) (ob [1000, 2000, 3000] [3600]) = some (.closedLate 3600 3 3000) := by decide
 example : monitor (scn 2 [m 10, n, n] 3750) (ob [1000, 2000] []) = some (.wentOn 1 [1000, 2000]) := by decide
+example : monitor { scn 1 [m 3, a 11] 2750 with real := true, transientMnf := [1] }
+    { ob [1000] [1003] with to := .none } = some (.f31 1 [1000] [1003]) := by decide
 example : monitor (scn 2 [a 10, a 10] 2750) (ob [1000, 2500] []) = some (.ticksGrid [1000, 2500] 2 1000) := by decide
 example : monitor (scn 2 [a 10] 1750) { ob [1000] [] with to := .all 250 } = some (.deadlineAll 250 1000) := by decide
 example : monitor (scn 2 [a 10] 1750) { ob [1000] [] with exit := false } = some .notQuiet := by decide
